@@ -140,6 +140,24 @@ Theorem C02_time_elapse_least : forall n G1 G2 (t : sys),
   forall x, in_gens n (te_gens G1 G2) x -> sat_sys t x.
 Proof. exact time_elapse_least. Qed.
 
+(* fold_space_dimensions(vs, dest): before the folded dimensions are removed, the reference generator system is
+   the concatenation of G with one copy per v in vs in which coordinate dest is replaced by coordinate v; each
+   copy generates exactly the image of the set under x_dest := x_v, and the concatenation of non-empty generator
+   systems generates the least polyhedron containing all of them *)
+Theorem C02_fold_reference_shape : forall vs dest G,
+  fold_gens vs dest G = concat (G :: map (fun v => map (subst_coord dest v) G) vs).
+Proof. exact fold_gens_concat. Qed.
+Theorem C02_fold_copy_is_image : forall n dest v G q, (dest < n)%nat -> (v < n)%nat ->
+  (in_gens n (map (subst_coord dest v) G) q <->
+   exists p, in_gens n G p /\ forall i, (i < n)%nat -> q i == (if Nat.eqb i dest then p v else p i)).
+Proof. exact subst_gens_image. Qed.
+Theorem C02_hull_of_many_least : forall n (Gs : list (list gen)) (t : sys),
+  (forall G, In G Gs -> wf_gens G /\ (forall g, In g G -> (length (gcoefs g) <= n)%nat) /\ (exists p, in_gens n G p)) ->
+  wf_sys_dim n t ->
+  (forall G, In G Gs -> forall p, in_gens n G p -> sat_sys t p) ->
+  forall p, in_gens n (concat Gs) p -> sat_sys t p.
+Proof. exact hull_list_least. Qed.
+
 (* poly_hull_assign_if_exact: with h the hull, the Boolean is true exactly when the union is already convex *)
 Theorem C02_hull_if_exact_flag : forall n h p q b,
   covered_by_union n h p q = Some b -> (b = true <-> forall x, sat_sys h x -> sat_sys p x \/ sat_sys q x).
